@@ -387,13 +387,18 @@ static Plan generate(uint64_t seed, uint64_t run, const std::map<std::string, st
           if (mix_api && r.chance(2, 3)) {
             // first concurrent use of the rest of the API: pattern construction + matching, C API, search params
             auto& c = corpus();
-            uint32_t q = r.below(5);
-            if (q <= 2 && !c.patterns.empty()) op = c.patterns[r.below(uint32_t(c.patterns.size()))];
+            uint32_t q = r.below(6);
+            if (q == 5) {
+              // the name-code-point predicate (URLPattern group names) beyond its ASCII fast path, and label validation:
+              // entry points with lookup state of their own, used here for the first time in the process
+              op = make_idna(r.chance(3, 4) ? I_NAME_CP : I_LABEL_VALID, pickl(r, {"m\xc3\xbcnchen", "user_id", "\xce\xb1\xce\xb2\xce\xb3", "na\xc3\xafve_1", "\xd7\xa9\xd7\x9c", "_x"}));
+            } else if (q <= 2 && !c.patterns.empty()) op = c.patterns[r.below(uint32_t(c.patterns.size()))];
             else if (q == 3) {
               op.kind = OP_PATTERN;
               op.args.assign(18, std::nullopt);
               op.args[0] = std::string("https://") + pickl(r, {":sub.example.com", "*.example.com", "example.com", "(.*)"}) +
-                           pickl(r, {"/:id", "/books/:id(\\d+)", "/*", "/a/:b?", "", "/caf\xc3\xa9/:id", "/a b/*", "/x.y/:id", "/A%41/../:z"});
+                           pickl(r, {"/:id", "/books/:id(\\d+)", "/*", "/a/:b?", "", "/caf\xc3\xa9/:id", "/a b/*", "/x.y/:id", "/A%41/../:z",
+                                     "/:user_id", "/:caf\xc3\xa9", "/:\xce\xb1\xce\xb2/:_x", "/:na\xc3\xafve_1"});
               op.args[9] = std::string("https://") + pickl(r, {"www.example.com", "example.com", "x.example.com"}) + pickl(r, {"/42", "/books/7", "/a", "/"});
               op.sub = uint8_t((r.chance(1, 3) ? 1 : 0) | (0 << 1) | (1 << 2));  // ignoreCase one time in three
             } else {
@@ -483,6 +488,24 @@ static Plan generate(uint64_t seed, uint64_t run, const std::map<std::string, st
           vals.insert(uint32_t(s.href_size + 1));
         }
     }
+    if (r.chance(1, 5)) {
+      // the C API resolving short references against ONE long base from several calls / threads: whatever the library
+      // remembers about a base between calls must not outlive a change of the limit
+      std::string base = "https://" + gen_label(r, r.range(8, 30)) + ".example/" + gen_label(r, r.range(10, 30)) + "/";
+      int k = r.range(2, 4);
+      for (int i = 0; i < k; i++) {
+        Op op;
+        op.kind = OP_CAPI;
+        op.sub = 3;
+        op.args = {OptStr(pickl(r, {"x", "../y", "?q", "#f", "//h/p", "https://o.example/"})), OptStr(base)};
+        p.ops.emplace_back(int(r.below(uint32_t(w))), op);
+      }
+      for (uint32_t d : {0u, 1u, 2u, 8u}) {
+        vals.insert(uint32_t(base.size() + d));
+        vals.insert(uint32_t(base.size() - d));
+      }
+      vals.insert(uint32_t(base.size() / 2));
+    }
     std::vector<uint32_t> vv(vals.begin(), vals.end());
     // one administrator, or (one run in three, if the thread budget allows) two that set the limit concurrently
     const int admins = (w + 2 <= maxthreads && r.chance(1, 2)) ? 2 : 1;
@@ -548,6 +571,15 @@ static std::string replay_step(const Op& op, const StepRec& sr, uint32_t v1, uin
     s += '|';
     s += u ? snapshot(*u) : std::string("-");
     return s;
+  }
+  if (op.kind == OP_CAPI && op.sub == 3 && v1 != v2) {
+    // ada_parse_with_base = parse the base, then the input: the limit may change in between
+    ada::set_max_input_length(v1);
+    auto b = ada::parse<ada::url_aggregator>(*op.args[1]);
+    if (!b) return "K|invalid|";
+    ada::set_max_input_length(v2);
+    auto u = ada::parse<ada::url_aggregator>(*op.args[0], &*b);
+    return u ? "K|valid|" + std::string(u->get_href()) : std::string("K|invalid|");
   }
   ada::set_max_input_length(v2);
   return exec_op(op, h).text;
@@ -844,8 +876,15 @@ static Result execute(const Plan& p, Stats& st) {
       std::string tried;
       for (uint32_t v1 : cand) {
         for (uint32_t v2 : cand) {
-          bool two = op.kind == OP_PARSE && op.args.size() > 1 && op.args[1];
+          bool two = (op.kind == OP_PARSE && op.args.size() > 1 && op.args[1]) || (op.kind == OP_CAPI && op.sub == 3);
           if (!two && v1 != v2) continue;
+          if (op.kind == OP_CAPI) {
+            // the reference execution must not inherit anything from the calls made before it (a library-side memo of
+            // the last base, say, filled under another limit): an unrelated call under no limit comes first
+            ada::set_max_input_length(kUnlimited);
+            ada_url d = ada_parse_with_base("d", 1, "http://decoy.invalid/x", 22);
+            ada_free(d);
+          }
           std::string o = ut[t] == 0 ? replay_step<ada::url>(op, sr, v1, v2) : replay_step<ada::url_aggregator>(op, sr, v1, v2);
           if (o == sr.obs.text) ok = true;
           if (tried.size() < 400) tried += " L=" + std::to_string(v2) + "->{" + pretty_snap(o).substr(0, 120) + "}";
